@@ -2,7 +2,7 @@
    Evaluated either by vm_compute inside coqc or by the OCaml program extracted from this file. *)
 From Coq Require Import ZArith List Bool String Ascii.
 From Coq.Strings Require Import Byte.
-From CP Require Import Core.Bytes Core.Result Core.Show Prim.Int Prim.Mpint Prim.Timestamp Base.Enum Base.Array Frame.LVFrame Frame.Units Frame.Entry Reader.Reader.
+From CP Require Import Core.Bytes Core.Result Core.Show Prim.Int Prim.Mpint Prim.Timestamp Base.Enum Base.Array Frame.LVFrame Frame.Units Frame.Entry Reader.Reader Spec.PL Spec.TlsSpec Spec.Ja3 Tls.Ja3Model.
 From CPGen Require Import Tables.
 Import ListNotations.
 Local Open Scope string_scope.
@@ -151,8 +151,52 @@ Fixpoint reader_trace (p : bytes -> result (frame * Z)) (st : rstate frame) (chu
   | c :: r => let st' := feed frame p st c in reader_trace p st' r (string_of_Z (need st') :: acc)
   end.
 
+(* ---- TLS specification encoders / decoders and JA3 ---- *)
+Definition hexlist_of_string (s : string) : list bytes :=
+  if String.eqb s "-" then [] else map bytes_of_hex (split_on "," s "").
+Definition ext_of_string (s : string) : extension :=
+  match split_on ":" s "" with [t; h] => (z_of_string t, bytes_of_hex h) | _ => (0, []) end.
+Definition exts_of_string (s : string) : list extension :=
+  if String.eqb s "-" then [] else map ext_of_string (split_on ";" s "").
+Definition show_ext (e : extension) : string := string_of_Z (fst e) ++ ":" ++ hex_of_bytes (snd e).
+Definition show_exts (l : list extension) : string := match l with [] => "-" | _ => String.concat ";" (map show_ext l) end.
+Definition show_zs (l : list Z) : string := match l with [] => "-" | _ => String.concat "," (map string_of_Z l) end.
+Definition dash_hex (b : bytes) : string := match b with [] => "-" | _ => hex_of_bytes b end.
+Definition show_opt (o : option bytes) : string := match o with Some b => "OK " ++ hex_of_bytes b | None => "NONE" end.
+Definition hex_or_empty (s : string) : bytes := if String.eqb s "-" then [] else bytes_of_hex s.
+Definition show_ch (h : client_hello) : string :=
+  string_of_Z (ch_version h) ++ " " ++ hex_of_bytes (ch_random h) ++ " " ++ dash_hex (ch_session_id h) ++ " "
+  ++ show_zs (filter (fun c => negb (is_scsv c)) (ch_suites h)) ++ " "
+  ++ (if memzb FALLBACK_SCSV (ch_suites h) then "1" else "0") ++ " " ++ (if memzb EMPTY_RENEGOTIATION_INFO_SCSV (ch_suites h) then "1" else "0") ++ " "
+  ++ show_zs (ch_compressions h) ++ " " ++ show_exts (ch_extensions h).
+
 Definition run_words (ws : list string) : string :=
   match ws with
+  | ["chenc"; ver; rnd; sid; suites; comps; exts] =>
+      show_opt (enc_client_hello {| ch_version := z_of_string ver; ch_random := bytes_of_hex rnd; ch_session_id := hex_or_empty sid;
+                                    ch_suites := zlist_of_string suites; ch_compressions := zlist_of_string comps; ch_extensions := exts_of_string exts |})
+  | ["chdec"; h] => match dec_client_hello (bytes_of_hex h) with
+                    | Some (c, r) => "OK " ++ show_ch c ++ " n=" ++ string_of_Z (zlen (bytes_of_hex h) - zlen r)
+                    | None => "NONE" end
+  | ["ja3ref"; h] => match ja3_ref (bytes_of_hex h) with Some s => "OK " ++ s | None => "NONE" end
+  | ["ja3impl"; h] => match dec_client_hello (bytes_of_hex h) with Some (c, _) => "OK " ++ ja3_impl c | None => "NONE" end
+  | ["shenc"; ver; rnd; sid; suite; comp; exts] =>
+      show_opt (enc_server_hello {| sh_version := z_of_string ver; sh_random := bytes_of_hex rnd; sh_session_id := hex_or_empty sid;
+                                    sh_suite := z_of_string suite; sh_compression := z_of_string comp; sh_extensions := exts_of_string exts |})
+  | ["certenc"; certs] => show_opt (enc_certificate (hexlist_of_string certs))
+  | ["shdenc"] => show_opt enc_server_hello_done
+  | ["recenc"; ct; ver; frag] => show_opt (enc_record (z_of_string ct) (z_of_string ver) (hex_or_empty frag))
+  | ["alertenc"; l; d] => "OK " ++ hex_of_bytes (enc_alert (z_of_string l) (z_of_string d))
+  | ["ccsenc"] => "OK " ++ hex_of_bytes enc_ccs
+  | ["extenc"; "G"; l] => show_opt (enc_supported_groups (zlist_of_string l))
+  | ["extenc"; "P"; l] => show_opt (enc_point_formats (zlist_of_string l))
+  | ["extenc"; "V"; l] => show_opt (enc_supported_versions_client (zlist_of_string l))
+  | ["extenc"; "S"; l] => show_opt (enc_signature_algorithms (zlist_of_string l))
+  | ["extenc"; "A"; l] => show_opt (enc_alpn (hexlist_of_string l))
+  | ["extenc"; "N"; h] => show_opt (enc_sni (bytes_of_hex h))
+  | ["extenc"; "K"; l] => show_opt (enc_psk_modes (zlist_of_string l))
+  | ["extenc"; "L"; n] => "OK " ++ hex_of_bytes (enc_record_size_limit (z_of_string n))
+  | ["extenc"; "R"; h] => show_opt (enc_renegotiation_info (hex_or_empty h))
   | ["pframe"; u; h] => match unit_parser u with
                         | Some p => show_result show_frame_n (p (bytes_of_hex h)) | None => "BADCMD" end
   | ["xframe"; u; h] => match unit_parser u with
